@@ -4,7 +4,7 @@
 cd /verif
 par="${1:-4}"
 declare -A REL=( [C01]="C01 C04 C05" [C02]="C02 C12" [C03]="C03 C04 C05" [C04]="C04 C03 C01" [C05]="C05 C04" [C06]="C06 C02" [C07]="C07 C03 C06" [C08]="C08" [C09]="C09"
- [C10]="C10 C05" [C11]="C11 C01" [C12]="C12 C02" [C12b]="C12 C04 C08 C01" [C13]="C13 C03" [C14]="C14" [C15]="C15" [C16]="C16 C07" [C17]="C17" [C18]="C18" [C19]="C19 C05" [C20]="C20" )
+ [C10]="C10 C05" [C11]="C11 C01" [C12]="C12 C02" [C12b]="C12 C04 C08 C01" [C03b]="C03 C12 C01" [C20b]="C20" [C11b]="C11 C03" [C13]="C13 C03" [C14]="C14" [C15]="C15" [C16]="C16 C07" [C17]="C17" [C18]="C18" [C19]="C19 C05" [C20]="C20" )
 out=seeded/MATRIX.txt
 tmp=$(mktemp -d /tmp/matrix.XXXX)
 one() {
@@ -18,7 +18,7 @@ one() {
   echo "seed=$s check=$p -> $v"
 }
 export -f one
-for s in $(ls seeded | grep '^C'); do b="${s%r2}"; rel="${REL[$s]:-${REL[$b]}}"; for p in $rel; do echo "$s $p"; done; done \
+for s in $(ls seeded | grep '^C'); do b="${s%r2}"; b="${b%b}"; rel="${REL[$s]:-${REL[$b]}}"; for p in $rel; do echo "$s $p"; done; done \
   | xargs -P "$par" -L 1 bash -c 'one $0 $1' | tee "$tmp/raw.txt"
 sort "$tmp/raw.txt" > "$out"
 rm -rf "$tmp"
